@@ -25,6 +25,7 @@ UNSET_EP = "board::BoardState::unset_pawn_double_move"
 MOVE_PIECE = "board::BoardState::move_piece"
 TAKE_AWAY = "board::BoardState::take_away_castling_rights"
 IS_CHECK = "move_generation::is_check"
+IS_CHECK_CORDS = "move_generation::is_check_cords"
 CAN_CASTLE = "move_generation::can_castle"
 GEN_ROOT = "move_generation::generate_moves"
 
@@ -162,6 +163,9 @@ class Site:
             neg = False
             while d[0] == "un" and d[1] == "Not":
                 d, neg = d[2], not neg
+            if d[0] == "call" and d[1] == IS_CHECK_CORDS and len(d[2]) == 3 and self._probes_own_king(bb, d):
+                # `is_check_cords(&L, c, sq)` with sq proved to be c's cached king square on L: the same gate
+                d = ("call", IS_CHECK, (d[2][0], d[2][1]), d[3] if len(d) > 3 else None)
             if d[0] == "call" and d[1] == IS_CHECK and len(d[2]) == 2:
                 r = d[2][0]
                 if r[0] == "ref" and root_local(r) in Ls and strip_refs(r)[0] == "var":
@@ -172,6 +176,56 @@ class Site:
                     for tg in false_targets:
                         if tg != true_target:
                             self.gate_edges[(bb, tg)] = d[2][1]
+
+    def _probes_own_king(self, gbb, d):
+        """The square probed by `is_check_cords(&L, c, sq)` at block gbb is L's cached king square of the
+        mover's colour: on the body specialised per (colour, king move or not) it equals the value stored
+        in that cache on L, or - when L's cache is not written - the parent's cache."""
+        from wa.cond import specialise, canon
+        b, f = self.b, self.b.facts
+        r = d[2][0]
+        if not (r[0] == "ref" and root_local(r) in set(self.Ls) and strip_refs(r)[0] == "var") or self.src_local is None:
+            return False
+        pp = [i for i in range(1, b.arg_count + 1) if b.local_ty(i) == "board::Piece"]
+        if len(pp) != 1:
+            return False
+        kind_e = ("field", ("arg", pp[0]), "kind")
+        col_e = ("field", ("arg", pp[0]), "color")
+        if canon(d[2][1]) != canon(col_e):
+            return False
+        kinds = f.enum_variant_by_discr("board::PieceKind")
+        colours = f.enum_variant_by_discr("board::PieceColor")
+        Ls = set(self.Ls)
+        for colour in sorted(colours.values()):
+            fld = "%s_king_location" % colour.lower()
+            for khyp in (("eq", "King"), ("ne", "King")):
+                b2, ex2, _dead = specialise(b, {col_e: ("eq", colour), kind_e: khyp}, {col_e: colours, kind_e: kinds})
+                if gbb not in b2.reachable:
+                    continue
+                sq = ex2.call_args(gbb) if b2.term(gbb)["k"] == "call" else None
+                if sq is None:
+                    # the probe call is the definition of the switch operand: find it
+                    for cb, ct in b2.iter_calls(callee=IS_CHECK_CORDS):
+                        if cb in b2.reachable and (cb == gbb or b2.reaches(cb, gbb)):
+                            a = ex2.call_args(cb)
+                            if root_local(a[0]) in Ls:
+                                sq = a
+                if sq is None or len(sq) != 3:
+                    return False
+                sq = sq[2]
+                stored = []
+                for loc, st in b2.iter_stmts():
+                    if st["k"] == "assign" and st["place"]["local"] in Ls and st["place"]["proj"] and st["place"]["proj"][0].get("name") == fld \
+                            and len(st["place"]["proj"]) == 1 and loc[0] in b2.reachable and (loc[0] == gbb or b2.reaches(loc[0], gbb)):
+                        stored.append(ex2.rvalue(st["rv"], loc))
+                if stored:
+                    if any(canon(v) != canon(sq) for v in stored):
+                        return False
+                else:
+                    parent = ("field", ("deref", ("arg", self.src_local)), fld)
+                    if canon(sq) != canon(parent):
+                        return False
+        return True
 
     def _collect_wrappers(self):
         """Path correlation through wrapper values: a helper that hands the successor back as
